@@ -324,6 +324,7 @@ type Flow struct {
 	z         *linearizer
 	raw       *canonCtx
 	escaped   map[*types.Var]bool // address taken, or assigned inside a nested literal
+	rebound   map[*types.Var]bool // the variable itself is assigned inside a nested literal, or its address is taken
 	fresh     map[*types.Var]bool // local pointers that only ever hold a newly obtained object
 	caseTag   map[ast.Expr]ast.Expr
 	entry     []*Fact
@@ -366,7 +367,7 @@ func (m *Model) cfgOf(u *FuncUnit) *cfg.CFG {
 
 func newFlow(m *Model, ef *effects, u *FuncUnit, entry func(fl *Flow) []*Fact, retBnd func(call *ast.CallExpr) []retBound, resFresh func(call *ast.CallExpr) []bool) *Flow {
 	fl := &Flow{u: u, m: m, ef: ef, info: m.Info, g: m.cfgOf(u), at: newAtomTable(),
-		escaped: map[*types.Var]bool{}, fresh: map[*types.Var]bool{}, caseTag: map[ast.Expr]ast.Expr{}, retBnd: retBnd, resFresh: resFresh}
+		escaped: map[*types.Var]bool{}, rebound: map[*types.Var]bool{}, fresh: map[*types.Var]bool{}, caseTag: map[ast.Expr]ast.Expr{}, retBnd: retBnd, resFresh: resFresh}
 	fl.raw = &canonCtx{info: m.Info, kindT: m.KindType}
 	fl.z = &linearizer{info: m.Info, cc: fl.raw, at: fl.at}
 	// escaped variables and switch tags
@@ -383,13 +384,17 @@ func newFlow(m *Model, ef *effects, u *FuncUnit, entry func(fl *Flow) []*Fact, r
 				if y.Op == token.AND {
 					if v, through := rootVar(m.Info, y.X); v != nil && !through {
 						fl.escaped[v] = true
+						fl.rebound[v] = true
 					}
 				}
 			case *ast.AssignStmt:
 				if inLit {
 					for _, l := range y.Lhs {
-						if v, _ := rootVar(m.Info, l); v != nil {
+						if v, through := rootVar(m.Info, l); v != nil {
 							fl.escaped[v] = true
+							if !through {
+								fl.rebound[v] = true // the variable itself is given another value by a closure
+							}
 						}
 					}
 				}
@@ -1480,7 +1485,9 @@ func (fl *Flow) setAtEdge(b *cfg.Block, i int) *FactSet {
 
 func (fl *Flow) addFresh(fs *FactSet, id *ast.Ident) {
 	v, _ := fl.info.ObjectOf(id).(*types.Var)
-	if v == nil || fl.escaped[v] {
+	// which memory a variable refers to changes only when the variable itself is assigned (a store
+	// THROUGH it in a closure does not rebind it)
+	if v == nil || fl.rebound[v] {
 		return
 	}
 	f := &Fact{Kind: FFresh, L: id, Origin: fl.m.pos(id.Pos()), objs: map[*types.Var]bool{v: true}, derefs: map[*types.Var]bool{}}
@@ -1516,6 +1523,15 @@ func (fl *Flow) freshExpr(e ast.Expr, fs *FactSet, resIdx int) bool {
 		return x.Name == "nil"
 	case *ast.SliceExpr:
 		return fl.freshExpr(x.X, fs, 0)
+	case *ast.StarExpr:
+		// the slice behind a pointer to memory of this call
+		return fl.freshExpr(x.X, fs, 0)
+	case *ast.TypeAssertExpr:
+		// pool.Get().(*T): the object is exclusively this call's until it is Put back
+		if call, ok := ast.Unparen(x.X).(*ast.CallExpr); ok && isSyncPoolCall(fl.info, call, "Get") {
+			return true
+		}
+		return false
 	case *ast.CallExpr:
 		if isBuiltinCall(fl.info, x, "make") || isBuiltinCall(fl.info, x, "new") {
 			return true
@@ -1533,6 +1549,11 @@ func (fl *Flow) freshExpr(e ast.Expr, fs *FactSet, resIdx int) bool {
 		switch fl.m.calleeName(x) {
 		case "bytes.Clone", "slices.Clone", "bytes.Repeat":
 			return true
+		case "encoding/binary.bigEndian.AppendUint16", "encoding/binary.bigEndian.AppendUint32", "encoding/binary.bigEndian.AppendUint64",
+			"encoding/binary.littleEndian.AppendUint16", "encoding/binary.littleEndian.AppendUint32", "encoding/binary.littleEndian.AppendUint64",
+			"slices.Grow", "slices.Insert", "slices.Delete", "bytes.TrimSuffix", "bytes.TrimPrefix", "bytes.TrimRight", "bytes.TrimLeft":
+			// append-like: the result is (a reslice of / grown copy of) the first argument
+			return len(x.Args) > 0 && fl.freshExpr(x.Args[0], fs, 0)
 		}
 		if fl.resFresh != nil {
 			if r := fl.resFresh(x); resIdx < len(r) && r[resIdx] {
@@ -1639,7 +1660,6 @@ func fieldNamed(n *types.Named, name string) *types.Var {
 	return nil
 }
 
-
 // evalAtom: is the comparison e known to hold (1), known to fail (0) or unknown (-1) under fs?
 // Only equalities against nil and kind constants are looked up (the facts tag and nil tests leave).
 func (fs *FactSet) evalAtom(e ast.Expr) int {
@@ -1688,4 +1708,21 @@ func (fl *Flow) resolveDisjunctions(fs *FactSet) {
 			return
 		}
 	}
+}
+
+// isSyncPoolCall: call is X.<name>(…) with X of type sync.Pool (or *sync.Pool).
+func isSyncPoolCall(info *types.Info, call *ast.CallExpr, name string) bool {
+	sel, ok := ast.Unparen(call.Fun).(*ast.SelectorExpr)
+	if !ok || sel.Sel.Name != name {
+		return false
+	}
+	t := info.TypeOf(sel.X)
+	if t == nil {
+		return false
+	}
+	if p, ok := t.Underlying().(*types.Pointer); ok {
+		t = p.Elem()
+	}
+	n := namedOf(t)
+	return n != nil && n.Obj().Pkg() != nil && n.Obj().Pkg().Path() == "sync" && n.Obj().Name() == "Pool"
 }
